@@ -2,6 +2,7 @@
 import ast
 
 from ..core import astutil as A
+from ..core import match as M
 from ..core.eqhash import Engine, eq_true_paths
 from ..core.model import dotted
 from ..core.sides import SideInterp
@@ -37,6 +38,12 @@ def rich_cmp_siblings(ctx, rule, K, names=OPS):
                           f"{name}: arm `{A.unparse(v)}` has the receiver on the left", node=r)
 
 
+def _is_log_call(e):
+    """a logging / warning call used as a statement: no effect on the values compared"""
+    nm = dotted(e.func) if isinstance(e, ast.Call) else None
+    return bool(nm) and nm.split(".")[0] in ("logger", "logging", "warnings")
+
+
 def lossless(arg, fn):
     """operand of a three-way comparison that preserves distinctness: attribute, `attr or const`, or a local
     helper whose body is `<const> if v is None else v`."""
@@ -46,10 +53,18 @@ def lossless(arg, fn):
         return True
     if isinstance(arg, ast.Call) and isinstance(arg.func, ast.Name) and len(arg.args) == 1 and isinstance(arg.args[0], ast.Attribute):
         for n in ast.walk(fn.node):
-            if isinstance(n, ast.FunctionDef) and n.name == arg.func.id and len(n.body) == 1 and isinstance(n.body[0], ast.Return):
-                v = n.body[0].value
-                if isinstance(v, ast.IfExp) and "is None" in A.unparse(v.test) and (isinstance(v.body, ast.Constant) or isinstance(v.orelse, ast.Constant)):
-                    return True
+            if isinstance(n, ast.FunctionDef) and n.name == arg.func.id and len(n.args.args) == 1:
+                # the helper's only effective statement is the return (docstrings, `pass`, bare constant / logging
+                # expression statements do not count; anything that could rebind the parameter does)
+                eff = [st for st in n.body if not isinstance(st, ast.Pass)
+                       and not (isinstance(st, ast.Expr) and (isinstance(st.value, ast.Constant) or _is_log_call(st.value)))]
+                if len(eff) != 1 or not isinstance(eff[0], ast.Return) or eff[0].value is None:
+                    continue
+                env = {"v": n.args.args[0].arg}
+                for shape in ("$$c if $v is None else $v", "$v if $v is not None else $$c"):
+                    m = M.pat(shape).matches(eff[0].value, env)
+                    if m is not None and isinstance(m["$c"], ast.Constant):
+                        return True
         return False
     return False
 
@@ -95,7 +110,11 @@ def run(ctx):
         ok = isinstance(fv.value, ast.Call) and dotted(fv.value.func) == "int"
         ctx.check("R1", cinit, ok, "cpvstr-canonical-revision", "cpvstr is rebuilt with the integer value of a zero-padded revision",
                   f"CPV.__init__ rebuilds cpvstr with `{A.unparse(fv.value)}` instead of the integer revision: equal versions get different cpvstr (hash / equality shortcut disagree with ordering)", node=c)
-    zero_branch = [n for n in A.body_walk(cinit.node) if isinstance(n, ast.If) and A.unparse(n.test) in ("rev == 0", "not rev", "rev == '0'")]
+    # the revision local is found by its role (built by Revision(...) / stored as the 'revision' attribute), not by name
+    revs = {m["rev"] for m in M.find(cinit.node, "$rev = Revision(...)")} | {m["rev"] for m in M.find(cinit.node, "$_(self, 'revision', $rev)")}
+    zero_tests = [M.pat(t) for t in ("$rev == 0", "not $rev", "$rev == '0'")]
+    zero_branch = [n for n in A.body_walk(cinit.node) if isinstance(n, ast.If)
+                   and any(p.matches(n.test, {"rev": rv}) is not None for p in zero_tests for rv in revs)]
     ctx.check("R1", cinit, bool(zero_branch), "cpvstr-drops-r0", "a -r0 revision is dropped from cpvstr")
     ctx.floor("R1", 4)
 
